@@ -144,6 +144,27 @@ def scenario(sc, tmproot, chooser_factory):
 
     # the user's command of CommandLineWorker is a real executable (harness/bin/consume): it notes that it ran and keeps a copy of the file it
     # was given, so nothing depends on HOW the worker starts it (os.system, subprocess, a shell)
+    class OsShim:
+        """auditok.workers' view of the os module: a command started with os.system() is recorded in-process (deterministic, no child
+        process); any other way of starting it reaches the real executable below."""
+        def __getattr__(self_, name):
+            return getattr(os, name)
+
+        def system(self_, cmd):
+            f = cmd.split(" ", 1)[1] if " " in cmd else ""
+            try:
+                with wave.open(f) as wf:
+                    commands.append((cmd.split(" ")[0], wf.readframes(-1), (wf.getframerate(), wf.getsampwidth(), wf.getnchannels())))
+            except Exception:  # noqa
+                commands.append((cmd, None, None))
+            try:
+                os.remove(f)
+            except OSError:
+                pass
+            return 0
+    real_os_ = getattr(W, "os", None)
+    if "command" in kinds and real_os_ is not None:
+        W.os = OsShim()
     consume_dir = os.path.join(tmp, "consumed")
     if "command" in kinds:
         os.makedirs(consume_dir, exist_ok=True)
@@ -374,6 +395,8 @@ def scenario(sc, tmproot, chooser_factory):
             saver._wfp.close()
     except Exception:
         pass
+    if real_os_ is not None:
+        W.os = real_os_
     shutil.rmtree(tmp, ignore_errors=True)
     return impl, obs_rec
 
